@@ -767,6 +767,10 @@ class ParallelProcess(Process):
                 'Trying to retrieve command result, but no command is '
                 'pending.')
         self._pending_command = None
+        if self._ended:
+            # The result was collected when the process was stopped.
+            result, self._command_result = self._command_result, None
+            return result
         return self.parent.recv()
 
     def initial_state(self, config: Optional[dict] = None) -> State:
@@ -844,18 +848,18 @@ class ParallelProcess(Process):
             return
         if self._pending_command:
             # The process is being stopped (deleted, divided away)
-            # with a command still in flight: collect its result first.
-            self.get_command_result()
-        self.send_command('end')
+            # with a command still in flight: collect its result now
+            # and keep it for whoever is still going to ask for it.
+            self._command_result = self.parent.recv()
+        self.parent.send(('end', None, None))
         if self.profile:
             stats = pstats.Stats()
-            stats.stats = self.get_command_result()  # type: ignore
+            stats.stats = self.parent.recv()  # type: ignore
             assert self._stats_objs is not None
             self._stats_objs.append(stats)
         self.multiprocess.join()
         self.multiprocess.close()
         self._ended = True
-        self._pending_command = None
 
     def __del__(self) -> None:
         self.end()
